@@ -118,6 +118,7 @@ def obligations(tier, seed):
             obs.append(Ob(id='C09.cmp.%s' % tag, prop='C09', group='C09.pp.%s_%s' % (s, t), prelude=prelude(s, t), wrappers=ws, inputs=[(ct, 'a'), (ct, 'b')],
                           body=body, contract='forall |a|,|b| <= %d: (%s_pt(a) op %s_pt(b)) == (a*u1 + o1  op  b*u2 + o2) with exact rationals (denominators cleared by %d)' % (X, s, t, FINE),
                           functions_under_contract=('au::operator==..>=(QuantityPoint, QuantityPoint)', 'au::detail::using_common_point_unit')))
+            if rep == 'i64': continue    # 64-bit point - point / point +- quantity through the fine reading unit: undecided for several unit pairs on every back end; 32-bit instances only
             wd = Wrapper('w_pdiff_' + tag, ct, [(ct, 'a'), (ct, 'b')], 'return (%s - %s).coerce_in(%s{});' % (p1, p2, fine_ty))
             body = '''
   ASSUME(a >= %d && a <= %d && b >= %d && b <= %d);
